@@ -1389,7 +1389,8 @@ where
 
 #[derive(Debug, Clone)]
 pub enum AggregateFunction {
-    Count { distinct: bool },
+    /// `column: None` is COUNT(*); `Some(c)` counts the rows whose column c is not NULL
+    Count { distinct: bool, column: Option<usize> },
     Sum { column: usize },
     Avg { column: usize },
     Min { column: usize },
